@@ -628,7 +628,9 @@ impl ParserListener for Screen {
             column = self.columns - 1;
         }
 
-        self.cursor.x = column;
+        // A stop may lie beyond the last column (set before the screen
+        // got narrower, or at the pending-wrap position).
+        self.cursor.x = u32::min(column, self.columns - 1);
     }
 
     /// Move the cursor to the beginning of the current line.
